@@ -247,6 +247,46 @@ fn roles_of(book: &Book, who: &str) -> Vec<&'static str> {
     r
 }
 
+/// Model-free: whatever id spelling a request used, the orders it actually changed or removed
+/// tell which authority it needed. A cancel may only touch orders of the sender; expire / reject
+/// / match / configuration only if the sender is a configured executor; approve only an approver.
+fn judge_effects(j: &mut Judge, out: &Outcome, w_before: &World, w_after: &World, who: &str, executors: &[String], approvers: &[String], msg: &Value, origin: &str) {
+    if !out.accepted() {
+        return;
+    }
+    let req = Req::from_value(msg);
+    let before = wire::read_book(&w_before.store);
+    let after = wire::read_book(&w_after.store);
+    let mut touched_owners: Vec<String> = vec![];
+    for (k, a) in &before.asks {
+        if after.asks.get(k) != Some(a) {
+            touched_owners.push(a.owner.clone());
+        }
+    }
+    for (k, b) in &before.bids {
+        if after.bids.get(k) != Some(b) {
+            touched_owners.push(b.owner.clone());
+        }
+    }
+    let bad = match &req {
+        Req::CancelAsk { .. } | Req::CancelBid { .. } => touched_owners.iter().any(|o| o != who),
+        Req::ExpireAsk { .. } | Req::ExpireBid { .. } | Req::RejectAsk { .. } | Req::RejectBid { .. } | Req::Match { .. } => {
+            !touched_owners.is_empty() && !executors.iter().any(|e| e == who)
+        }
+        Req::ApproveAsk { .. } => !touched_owners.is_empty() && !approvers.iter().any(|e| e == who),
+        Req::Modify(_) => before.cfg != after.cfg && !executors.iter().any(|e| e == who),
+        _ => false,
+    };
+    if bad {
+        j.violate(
+            Prop::C05,
+            "acted-without-authority",
+            &format!("{}:{}", origin, req.kind()),
+            format!("{} from {} was carried out and changed orders of {:?} (executors {:?}, approvers {:?})", msg, who, touched_owners, executors, approvers),
+        );
+    }
+}
+
 fn judge_auth(j: &mut Judge, exp: &model::Expect, out: &Outcome, w_before: &World, w_after: &World, who: &str, roles: &[&str], msg: &Value, origin: &str) {
     if has_tag(&exp.failing, "auth:") {
         if !is_refusal(out) {
@@ -296,6 +336,9 @@ pub fn c05(j: &mut Judge, v: &StepView) {
     let exp_cfgd = verdict_of(v.world_before, &before_cfgd, v.sender, v.funds, v.msg);
     let roles = roles_of(&before_cfgd, v.sender);
     judge_auth(j, &exp_cfgd, v.out, v.world_before, v.world_after, v.sender, &roles, v.msg, "history");
+    if let Some(c) = &before_cfgd.cfg {
+        judge_effects(j, v.out, v.world_before, v.world_after, v.sender, &c.executors, &c.approvers, v.msg, "history");
+    }
     if !v.out.accepted() || j.probe_budget == 0 {
         return;
     }
@@ -354,6 +397,31 @@ pub fn c05(j: &mut Judge, v: &StepView) {
         reqs.push((m, vec![]));
     }
     reqs.push((CfgChange::default().to_modify(), vec![]));
+    // the same orders named in other spellings of their ids (the validator accepts every UUID
+    // spelling for cancel / expire / reject)
+    {
+        let how = j.pick(4);
+        let respell = |id: &str| -> String {
+            match how {
+                0 => id.to_uppercase(),
+                1 => id.chars().filter(|c| *c != '-').collect(),
+                2 => format!("{{{}}}", id),
+                _ => format!("urn:uuid:{}", id),
+            }
+        };
+        if let Some(a) = asks.first() {
+            if model::is_canonical_uuid(&a.id) {
+                reqs.push((wire::m_cancel_ask(&respell(&a.id)), vec![]));
+                reqs.push((wire::m_expire_ask(&respell(&a.id)), vec![]));
+            }
+        }
+        if let Some(b) = bids.first() {
+            if model::is_canonical_uuid(&b.id) {
+                reqs.push((wire::m_cancel_bid(&respell(&b.id)), vec![]));
+                reqs.push((wire::m_reject_bid(&respell(&b.id), None), vec![]));
+            }
+        }
+    }
     let multi = addrs.iter().any(|a| roles_of(book, a).len() >= 2);
     if j.tracker.role_changes >= 1 {
         j.label("matrix-after-role-change");
@@ -373,6 +441,7 @@ pub fn c05(j: &mut Judge, v: &StepView) {
             j.counters.probes += 1;
             let roles = roles_of(book, who);
             judge_auth(j, &exp, &out, w, &w2, who, &roles, msg, "matrix");
+            judge_effects(j, &out, w, &w2, who, &cfg.executors, &cfg.approvers, msg, "matrix");
         }
     }
 }
